@@ -185,6 +185,31 @@ func (e *env) repPut(epoch int64, peer, value []byte, alphaClass int) {
 	e.repSweep(r)
 }
 
+// repBulk stacks many values on one (epoch, peer) pair: the sequence number Put appends to the key grows past
+// the one-byte encodings (127/128, 255/256); sweeps at the boundaries only (seeded change C20-6).
+func (e *env) repBulk(epoch int64, peer []byte, n int) {
+	b := e.b
+	A := e.w.Alpha()
+	for i := 1; i <= n && b.NViolations() == 0; i++ {
+		e.seq++
+		value := []byte(fmt.Sprintf("bulk-%d", e.seq))
+		r := e.w.Invoke(A, e.rep, "put", epoch, peer, value)
+		b.Tx(1)
+		if !r.Halted() {
+			b.Violation(fmt.Sprintf("reputation.put #%d for one (epoch, peer) pair failed: %s", i, r.Fault), e.detail(r))
+			return
+		}
+		id := string(append(enc(epoch), peer...))
+		e.repCnt[id]++
+		e.reps = append(e.reps, repEntry{epoch: epoch, peer: peer, value: value, craw: "c" + id, raw: "r" + id + string(enc(int64(e.repCnt[id])))})
+		if c := e.repCnt[id]; c == 127 || c == 128 || c == 129 || c == 255 || c == 256 || c == 257 || i == n {
+			e.repSweep(r)
+			b.Hit(fmt.Sprintf("reputation-values-on-one-key>=%d", c/128*128))
+		}
+	}
+	b.EvalN(fmt.Sprintf("rep.bulk|e%d|n%d", epoch, n), n, true)
+}
+
 func (e *env) repSweep(tr *world.TxResult) {
 	for _, ep := range epochPool {
 		// listByEpoch
@@ -875,6 +900,14 @@ func runC20(b *runner.Batch) {
 	e.cfgOp(true, []byte("KK"), []byte("2"), 0)
 	e.cfgOp(false, []byte("K"), []byte("3"), 0)
 
+	// a few batches stack values on one key past the encoding boundaries of the sequence number
+	if b.Index%24 == 7 {
+		n := 130
+		if b.Thorough() && b.Index%48 == 7 {
+			n = 260
+		}
+		e.repBulk(runner.Pick(b.Rng, []int64{1, 257}), e.peers[0], n)
+	}
 	nops := 120
 	if b.Thorough() {
 		nops = 300
@@ -969,7 +1002,7 @@ func init() {
 			return 144
 		},
 		Chunk: 4,
-		Floors: []string{"reputation.put", "audit.put", "audit.put-refused-non-member", "audit.put-outsider-result-co-signed-by-a-member", "audit.put-right-after-inner-ring-rotation", "estimation.put", "estimation-refused-node-outside-previous-map", "estimation-node-cleanup-fired", "estimation-node-cleanup-boundary-kept",
+		Floors: []string{"reputation.put", "audit.put", "audit.put-refused-non-member", "reputation-values-on-one-key>=128", "audit.put-outsider-result-co-signed-by-a-member", "audit.put-right-after-inner-ring-rotation", "estimation.put", "estimation-refused-node-outside-previous-map", "estimation-node-cleanup-fired", "estimation-node-cleanup-boundary-kept",
 			"estimation-total-cleanup-fired", "estimation-total-cleanup-boundary-kept", "neofsid.addKey", "neofsid.removeKey", "netmap.setConfig", "neofs.setConfig"},
 		Run: runC20,
 	})
